@@ -39,7 +39,7 @@ PLANS = {
     "C13": plan(shards(15, 240)),
     "C14": plan(shards(20, 300), tool("tsan.sh", ["C14"], 3000)),
     "C15": plan(shards(12, 180, n=13), shards(12, 180, mode="live", n=3)),
-    "C16": plan(shards(15, 240)),
+    "C16": plan(shards(15, 240, n=13), shards(15, 240, mode="engine", n=3)),
     "C17": plan(shards(12, 180)),
     "C18": plan(shards(15, 240)),
 }
@@ -106,7 +106,7 @@ RULES = {
            "two documents and a missing one), filter text round-trips and arbitrary strings, event flags from a real actor; live mode: 4..16 steps of policy change / remote insert with its own content hash (sender has or lacks the content) / neighbour announcement against a real live actor (H7), non-trivial there = a history with selected and excluded entries. "
            "non-trivial = policy that selects some keys and not others / >=2 steps / filter round-tripped; distinct = hash.",
     "C16": "case = store with 3..5 documents from a pool of byte-neighbour ids, filled with entries, policies and peers; 2..8 steps of "
-           "removal (1/3 attempted while open; on file stores half of them cut by the age-based commit at a random store access, with a crash image checked), re-creation, late operations on the removed document, writes. non-trivial = at least one removal succeeded; distinct = hash of the trace.",
+           "removal (1/3 attempted while open; on file stores half of them cut by the age-based commit at a random store access, with a crash image checked), re-creation, late operations on the removed document, writes; engine mode: a complete docs engine on a database file with a protect handler, 3..12 API steps (set_bytes, set_hash, del, close+drop, create) with the harness calling the protect callback as the blob store's collector would (exact set on the healthy engine; after the engine was shut down or dropped: Abort or the exact set). non-trivial = at least one removal succeeded; distinct = hash of the trace.",
     "C17": "case = 1..40 registrations over 1..8 peers and two documents (read-only or writable) with reopen, unknown documents and interleaved other store operations (capability import, policy, listing, open/close, removal and re-import). non-trivial = an eviction "
            "and a refresh both happened; distinct = hash of the trace.",
     "C18": "case = file store with 1..3 documents (1..14 offers each), flushed; head table / by-key index / both / none deleted with plain "
